@@ -252,6 +252,25 @@ def rule_header_agree(ctx):
                and len(present) == len(evs),
                "decoded elements are assigned to header fields out of order: %s" % list(zip(order, got)),
                site=rb.loc(), key="C02.2:reader-placement")
+        # the reader accepts everything the writer can produce: accepting rows depend only on element presence, the
+        # two presence predicates (payload_size / seq_num zero tests), the extensions' size class and the trailing check
+        ps_e, sn_e = field_expr(hdr, "payload_size"), field_expr(hdr, "seq_num")
+        extra = []
+        for q, a, _opts in lf.decisions:
+            if q.startswith(("try(", "switch(discr(ok(", "switch(discr(serde_core::de::SeqAccess::size_hint")) and "next_element" in q + "next_element" \
+                    and ("next_element" in q or "size_hint" in q):
+                continue
+            if q.startswith("rel((serde_core::de::SeqAccess::size_hint(") and q.endswith(", 0)"):
+                continue
+            if q in ("switch(%s)" % ps_e, "switch(%s)" % sn_e):
+                continue
+            if q == "switch(p2panda_core::operation::Header::has_non_zero_sized_extensions())":
+                continue
+            extra.append(q)
+        ctx.ob("C02.2", "reader accepts what the writer produces:%s" % ((has_ph, has_bl, ext),), not extra,
+               "HeaderVisitor::visit_seq's accepting path additionally depends on %s: the writer has no such condition, so a "
+               "header it encodes can be rejected when decoded" % [x[:140] for x in extra[:3]], site=rb.loc(),
+               key="C02.2:reader-only-condition")
         # trailing garbage is rejected: the Ok row passed the size_hint check
     ctx.floor("C02.2", "Ok rows of HeaderVisitor::visit_seq", n_ok, 8)
     ctx.sample({"reader Ok rows": n_ok})
@@ -355,6 +374,24 @@ def rule_extensions_agree(ctx):
                   if r == "=" and (x.isdigit() or y.isdigit()) and (code_sym in x or code_sym in y)]
         w = writer.get(vname)
         seen.add(vname)
+        # the reader accepts everything the writer can produce: an accepting row may only depend on the presence of
+        # the elements and on the version / variant-code constants — any other test of a decoded value is an
+        # acceptance condition the writer does not have (encode succeeds, decode of the same bytes fails)
+        extra = []
+        for q, a, _opts in lf.decisions:
+            if "next_element" not in q and "size_hint" not in q:
+                extra.append(q)
+                continue
+            idx = q.count("mut[SeqAccess::next_element#0](")
+            if q.startswith(("try(", "switch(discr(ok(")):
+                continue
+            if q.startswith("rel(") and idx <= 1 and "::len(" not in q and q.count("(") <= 6 + idx:
+                continue
+            extra.append(q)
+        ctx.ob("C02.3", "reader accepts what the writer produces:%s" % vname, not extra,
+               "the visitor's accepting path for variant %s additionally depends on %s: the writer has no such condition, so "
+               "a header it encodes can be rejected when decoded (encode/decode no longer round-trip)"
+               % (vname, [x[:140] for x in extra[:3]]), site=rb.loc(), key="C02.3:reader-only-condition:%s" % vname)
         ctx.ob("C02.3", "reader/writer agree:%s" % vname,
                w is not None and code_m == [w[0]] and types == w[1],
                "reader builds variant %s after matching code %s with elements %s; writer uses code %s "
